@@ -1813,7 +1813,7 @@ package engine
 //@   modifies nothing
 
 //@ func (*VM).ensureLoaded
-//@   property C13 C20
+//@   property C05 C13 C20
 //@   requires vm != nil
 //@   nosafety
 //@   trusted-frame
